@@ -8,9 +8,10 @@
       [no_lower bl0 bl1]          every project of bl0 is in bl1 at the same or a higher version;
       [wf_universe], [wf_reqs]    every requirement names a non-empty path at a canonical semantic version
                                   (what project.LoadConfigBytes enforces);
-      [names_unique root]         requirement names are unique (a Go map);
-      [paths_unique root]         HYPOTHESIS "no two requirement names share a path" (needed where get returns
-                                  the root's requirement list unchanged; see the report);
+      [names_unique root]         requirement names are unique (a Go map).  Several names MAY share a path, at equal
+                                  or different versions ("aliases"): no theorem below assumes otherwise;
+      [highest_of l p]            the highest version the requirement list [l] holds for path [p] (highest_spec);
+      [keep_old root l]           transformReqs' first loop: the old names re-bound over the computed list [l];
       [u_fuel], [e_fuel]          explicit sufficient fuels (number of nodes + constant).  *)
 From Dawn Require Import Mvs.Spec Mvs.Proofs_Names Mvs.Proofs_C11 Mvs.Proofs_Idem2 Mvs.Proofs_Down Mvs.Proofs_Query.
 From Dawn Require Mvs.Proofs_Down2 Mvs.Proofs_Idem3.
@@ -31,7 +32,7 @@ Print Assumptions tidy_preserves_build_list.
     resolved version or above, and lowers no project *)
 Theorem upgrade_contains_and_no_lower :
   forall pick U root q k c',
-    wf_universe U -> wf_reqs (map snd root) -> names_unique root -> paths_unique root ->
+    wf_universe U -> wf_reqs (map snd root) -> names_unique root ->
     apply_op pick U root (OpGet q k) = Ok c' ->
     exists bl0 version,
       build_list pick (e_fuel U (map snd root)) U (map snd root) = Ok bl0 /\
@@ -73,7 +74,7 @@ Print Assumptions patch_upgrade_not_below_selection.
     above: upgrade_contains_and_no_lower without its "not a downgrade" premise *)
 Theorem patch_upgrade_lowers_nothing :
   forall pick U root q k c',
-    wf_universe U -> wf_reqs (map snd root) -> names_unique root -> paths_unique root ->
+    wf_universe U -> wf_reqs (map snd root) -> names_unique root ->
     match k with QUpgrade | QPatch => True | _ => False end ->
     apply_op pick U root (OpGet q k) = Ok c' ->
     exists bl0 version,
@@ -125,6 +126,71 @@ Theorem names_preserved_new_names_unique :
 Proof. exact Proofs_C11.names_spec. Qed.
 Print Assumptions names_preserved_new_names_unique.
 
+(** names, for ANY computed requirement list - one path may occur in it several times, which is what get's two
+    early returns produce for a root that names one path under several names at different versions: names stay
+    unique, no requirement is invented, every name of a path that remains keeps the path - at its OWN old version
+    when the list holds exactly that requirement, else at the highest version the list holds for the path -, an
+    old requirement that is handed back is kept under its name, and a requirement on a new path gets a fresh name *)
+Theorem names_preserved_any_list :
+  forall pick U root o c' newv,
+    names_unique root -> apply_op pick U root o = Ok c' -> op_versions pick U o (map snd root) = Ok newv ->
+    (forall x, In x newv -> fst x <> []) ->
+    NoDup (map fst c') /\
+    incl (map snd c') newv /\
+    (forall n p v0, In (n, (p, v0)) root -> In p (map fst newv) ->
+                    cfg_get c' n = Some (if mem (p, v0) newv then (p, v0) else (p, highest_of newv p))) /\
+    (forall n x, In (n, x) root -> In x newv -> cfg_get c' n = Some x) /\
+    (forall x, In x newv -> names_of root (fst x) = [] ->
+               exists n, cfg_get c' n = Some x /\ cfg_get (keep_old root newv) n = None).
+Proof. exact Proofs_C11.names_spec_any. Qed.
+Print Assumptions names_preserved_any_list.
+
+(** "the highest version the list holds for the path": an entry of the path that no entry of the path exceeds *)
+Theorem highest_is_the_maximum :
+  forall p l h, (forall x, In x l -> exists s, snd x = VSem s) ->
+    highest_from p l None = Some h <-> (In (p, h) l /\ forall v, In (p, v) l -> vle v h = true).
+Proof. exact Proofs_Names.highest_spec. Qed.
+Print Assumptions highest_is_the_maximum.
+
+(** the old names' new bindings do not depend on the order of the computed list (the root's requirements reach
+    transformReqs in Go-map iteration order) *)
+Theorem old_names_order_independent :
+  forall root newv newv',
+    names_unique root -> (forall x, In x newv -> exists s, snd x = VSem s) -> Permutation newv newv' ->
+    keep_old root newv = keep_old root newv'.
+Proof. exact Proofs_Names.keep_old_order_independent. Qed.
+Print Assumptions old_names_order_independent.
+
+(** the hypotheses hold together on an aliased root: lib v1.1.0 requires z v1.0.0, lib v1.3.0 requires nothing, the
+    root names lib twice (core = lib v1.1.0, lib = lib v1.3.0), so its build list has lib v1.3.0 and - through the
+    lower entry - z v1.0.0.  "get tool" (add) and "get lib@v1.3.0" (already selected) keep both entries as they
+    are, so z stays; tidy moves core to the returned lib v1.3.0 and names z; nothing is lowered *)
+Example aliased_root_example :
+  let lib := [114; 47; 108] in let z := [114; 47; 122] in let tool := [114; 47; 116] in
+  let v x y z := VSem (mkSV x y z []) in
+  let U := mkU [114]
+               [((lib, v 1 1 0), 1); ((z, v 1 0 0), 1); ((tool, v 1 1 0), 1); ((lib, v 1 3 0), 2)]
+               [((lib, 1), mkSum [] [(z, v 1 0 0)]); ((lib, 2), mkSum [] []); ((z, 1), mkSum [] []); ((z, 2), mkSum [] []);
+                ((tool, 1), mkSum [] []); ((tool, 2), mkSum [] [])] [] [] [] in
+  let root := [([99], (lib, v 1 1 0)); ([108], (lib, v 1 3 0))] in
+  let bl0 := [([], VRoot); (lib, v 1 3 0); (z, v 1 0 0)] in
+  names_unique root /\ ~ paths_unique root /\
+  dawn_build_list (fun _ => O) 20 U root = Ok bl0 /\
+  apply_op (fun _ => O) U root (OpGet tool QLatest)
+  = Ok [([99], (lib, v 1 1 0)); ([108], (lib, v 1 3 0)); ([116], (tool, v 1 1 0))] /\
+  dawn_build_list (fun _ => O) 20 U [([99], (lib, v 1 1 0)); ([108], (lib, v 1 3 0)); ([116], (tool, v 1 1 0))]
+  = Ok [([], VRoot); (lib, v 1 3 0); (tool, v 1 1 0); (z, v 1 0 0)] /\
+  apply_op (fun _ => O) U root (OpGet lib (QRange (RExact (v 1 3 0)))) = Ok root /\
+  apply_op (fun _ => O) U root OpTidy
+  = Ok [([99], (lib, v 1 3 0)); ([108], (lib, v 1 3 0)); ([122], (z, v 1 0 0))] /\
+  dawn_build_list (fun _ => O) 20 U [([99], (lib, v 1 3 0)); ([108], (lib, v 1 3 0)); ([122], (z, v 1 0 0))] = Ok bl0.
+Proof.
+  cbv zeta. split; [|split].
+  - unfold names_unique. simpl. repeat constructor; simpl; intuition discriminate.
+  - unfold paths_unique. simpl. intros H. inversion H; subst. apply H2. now left.
+  - repeat split; vm_compute; reflexivity.
+Qed.
+
 (** ** repeating an operation changes nothing *)
 
 Theorem tidy_idempotent :
@@ -167,7 +233,7 @@ Proof. cbv zeta. repeat split; vm_compute; reflexivity. Qed.
     project the repeat resolves differently (known finding get-patch-absent). *)
 Theorem get_idempotent :
   forall pick U (c' : config) q k bl1 version,
-    Proofs_Names.csorted c' -> paths_unique c' -> wf_reqs (map snd c') -> wf_node version ->
+    Proofs_Names.csorted c' -> wf_reqs (map snd c') -> wf_node version ->
     build_list pick (e_fuel U (map snd c')) U (map snd c') = Ok bl1 ->
     resolve_query U bl1 q k = Ok version ->
     find_path (fst version) bl1 = Some (snd version) ->
